@@ -88,14 +88,17 @@ func (m *Machine) loadFrom(p value) value {
 		return load(p)
 	case *SymRef:
 		return m.symLoad(p)
+	case *PtrSet:
+		return m.ptrSetLoad(p)
 	case unsafePtr:
 		return m.loadFrom(p.v)
 	}
 	panic(fmt.Sprintf("load from %T", p))
 }
 
-func (fr *frame) storeTo(p value, v value) {
-	m := fr.m
+func (fr *frame) storeTo(p value, v value) { fr.m.storePtr(p, v) }
+
+func (m *Machine) storePtr(p value, v value) {
 	if m.spec > 0 {
 		panic(mergeAbort{})
 	}
@@ -108,6 +111,9 @@ func (fr *frame) storeTo(p value, v value) {
 		return
 	case *SymRef:
 		m.symStore(p, v)
+		return
+	case *PtrSet:
+		m.ptrSetStore(p, v)
 		return
 	}
 	panic(fmt.Sprintf("store to %T", p))
@@ -513,6 +519,14 @@ func (fr *frame) fieldAddr(x value, field int) value {
 	case *SymRef:
 		np := append(append([]int(nil), p.path...), field)
 		return &SymRef{base: p.base, idx: p.idx, path: np}
+	case *PtrSet:
+		return m.ptrSetMap(p, func(q *value) *value {
+			st, ok := (*q).(structure)
+			if !ok {
+				panic(unsupported{fmt.Sprintf("field address in %T (unsafe cast?)", *q)})
+			}
+			return &st[field]
+		})
 	}
 	panic(fmt.Sprintf("fieldAddr %T", x))
 }
@@ -573,6 +587,30 @@ func (fr *frame) indexAddr(instr *ssa.IndexAddr) value {
 		k := m.concInt(idx)
 		np := append(append([]int(nil), x.path...), k)
 		return &SymRef{base: x.base, idx: x.idx, path: np}
+	case *PtrSet:
+		n := int(instr.X.Type().Underlying().(*types.Pointer).Elem().Underlying().(*types.Array).Len())
+		m.boundsCheck(idx, n, "array")
+		if idx.IsConst() {
+			return m.ptrSetMap(x, func(q *value) *value { return &(*q).(array)[idx.Val] })
+		}
+		alts := m.nonNilAlts(x)
+		if len(alts)*n > maxPtrAlts {
+			// too many combinations: resolve the pointer first
+			q := m.resolvePtr(x).(*value)
+			return &SymRef{base: (*q).(array), idx: idx}
+		}
+		var out []ptrAlt
+		for _, a := range alts {
+			arr := (*a.p).(array)
+			for j := range arr {
+				out = append(out, ptrAlt{m.tt.And(a.g, m.tt.Eq(idx, m.tt.Const(64, uint64(j)))), &arr[j]})
+			}
+		}
+		r, ok := m.mkPtrSet(out)
+		if !ok {
+			panic(unsupported{"pointer set too large"})
+		}
+		return r
 	default:
 		panic(fmt.Sprintf("indexAddr %T", x))
 	}
@@ -665,7 +703,7 @@ func (fr *frame) lookup(instr *ssa.Lookup) value {
 
 func (fr *frame) slice(instr *ssa.Slice) value {
 	m := fr.m
-	x := fr.get(instr.X)
+	x := m.resolvePtr(fr.get(instr.X))
 	var lo, hi, max int = 0, -1, -1
 	if instr.Low != nil {
 		lo = m.concInt(fr.get(instr.Low))
@@ -1116,6 +1154,9 @@ func (m *Machine) callBuiltin(fn *ssa.Builtin, args []value) value {
 		return iface{}
 	case "ssa:wrapnilchk":
 		recv := args[0]
+		if ps, ok := recv.(*PtrSet); ok {
+			m.nonNilAlts(ps)
+		}
 		if p, ok := recv.(*value); ok && p == nil {
 			panic(goPanic{m.mkRuntimeErrorPlain(fmt.Sprintf("value method %s.%s called using nil pointer", describe(args[1]), describe(args[2])))})
 		}
@@ -1186,7 +1227,7 @@ func zeroLike(m *Machine, v value) value {
 			r[i] = zeroLike(m, v[i])
 		}
 		return r
-	case *value:
+	case *value, *PtrSet:
 		return (*value)(nil)
 	case []value:
 		return []value(nil)
